@@ -325,34 +325,18 @@ def verify_shape(ctx):
         return
     an = ctx.an(vb)
     g = ctx.graph(vb)
-    # length guard
-    guards = []
-    for b in vb.blocks:
-        if b.cleanup or b.term.kind != "switch" or vb.is_noise(b.term):
-            continue
-        e, ls = an.switch_info(b.idx)
-        if e[0] == "binop" and e[1] in ("Lt", "Ge", "Le", "Gt"):
-            a, c = flow.strip(e[2]), flow.strip(e[3])
-            if a[0] == "call" and flow.short(a[1]).endswith("len") and param_name(a[3][0]) == "signed" and c[0] == "const":
-                guards.append((b.idx, e[1], c[2], ls))
-    ctx.exact(RV, "length guard in cookie::verify", len(guards), 1, vb.loc)
-    pass_edges = []
-    if len(guards) == 1:
-        bb, op, n, ls = guards[0]
-        ok = (op == "Lt" and n == 32) or (op == "Ge" and n == 32) or (op == "Le" and n == 31) or (op == "Gt" and n == 31)
-        ctx.check(ok, RV, "C02/verify-shape/min-length", site(vb, bb),
-                  reason="length guard is len %s %s; expected rejection of inputs shorter than the 32-byte tag" % (op, n),
-                  detail="inputs shorter than 32 bytes rejected")
-        short_label = "true" if op in ("Lt", "Le") else "false"
-        pass_edges = [(bb, tb) for tb, l in ls.items() if short_label not in l]
-        rej = [tb for tb, l in ls.items() if short_label in l]
-        # reject side returns (false, _)
-        for tb in rej:
-            reach = g.reachable(g.nodes_of_bb(tb))
-            rbbs = set(g.bb(n2) for n2 in reach)
-            has_mac = any(bb2 in rbbs for bb2, _ in calls(vb, ("Mac::verify_slice", "Mac::new_from_slice")))
-            ctx.check(not has_mac, RV, "C02/verify-shape/short-rejected-early", site(vb, bb),
-                      reason="short input still reaches the MAC computation", detail="short input returns before slicing")
+    # length guard, evaluated at sample lengths (pv/sample.py): below 32 bytes nothing is sliced and no MAC is computed
+    from .cookie_common import slice_norm, slicing_sites, verify_samples
+    slices = slicing_sites(ctx, vb)
+    S = verify_samples(ctx, vb, [32] + [n for _, _, n in slices])
+    macs = [bb2 for bb2, _ in calls(vb, ("Mac::verify_slice", "Mac::new_from_slice"))]
+    ctx.floor(RV, "comparisons of signed.len() with constants in cookie::verify", len(S.cmp), 1, vb.loc)
+    ctx.check(bool(macs) and all(S.reachable(32, bb2) for bb2 in macs) and not any(S.reachable(31, bb2) for bb2 in macs), RV, "C02/verify-shape/min-length", vb.loc,
+              reason="expected rejection of inputs shorter than the 32-byte tag and acceptance of 32-byte inputs: MAC reachable for len 31: %s, for len 32: %s"
+                     % (any(S.reachable(31, bb2) for bb2 in macs), all(S.reachable(32, bb2) for bb2 in macs)),
+              detail="inputs shorter than 32 bytes rejected, 32 bytes and more are verified")
+    ctx.check(not any(S.reachable(v, bb2) for v in S.reach if v < 32 for bb2 in macs), RV, "C02/verify-shape/short-rejected-early", vb.loc,
+              reason="short input still reaches the MAC computation", detail="short input returns before slicing")
     r = return_expr(an)
     tuples = [x for x in leaves_phi(r) if x[0] == "agg" and x[1] == "tuple"]
     falses = [t for t in tuples if flow.strip(t[2][0][1]) == ("const", "bool", False)]
@@ -368,7 +352,7 @@ def verify_shape(ctx):
             v = flow.strip(okv[3][0])
             if v[0] == "call" and flow.short(v[1]).endswith("Mac::verify_slice"):
                 mac, tag = v[3][0], flow.strip(v[3][1])
-                tag_ok = _slice_of(tag, "signed", "RangeTo", 32)
+                tag_ok = slice_norm(tag) == ("signed", 0, 32)
                 macs = flow.strip(mac)
                 upd = find_all(mac, lambda x: x[0] == "mut")
                 m_ok = False
@@ -379,7 +363,7 @@ def verify_shape(ctx):
                     m_ok = param_name(base[3][0]) == "secret" and "sha2::Sha256" in " ".join(base[5])
                 why = "tag=%s mac=%s" % (render(tag, maxdepth=3), render(base, maxdepth=3))
                 ups = calls(vb, "Mac::update")
-                u_ok = len(ups) == 1 and _slice_of(flow.strip(arg(an, ups[0][0], ups[0][1], 1)), "signed", "RangeFrom", 32)
+                u_ok = len(ups) == 1 and slice_norm(arg(an, ups[0][0], ups[0][1], 1)) == ("signed", 32, None)
                 upd_on_mac = bool(upd) and any(m.endswith("Mac::update") for m in upd[0][2])
                 good = tag_ok and m_ok and u_ok and upd_on_mac
                 if not tag_ok:
@@ -390,15 +374,17 @@ def verify_shape(ctx):
                     why = "MAC must be updated exactly once with signed[32..]"
         ctx.check(good, RV, "C02/verify-shape/mac", vb.loc, reason=why,
                   detail="ok = HmacSha256(secret).update(signed[32..]).verify_slice(signed[..32]).is_ok()")
-        ctx.check(_slice_of(msg, "signed", "RangeFrom", 32), RV, "C02/verify-shape/message", vb.loc,
+        ctx.check(slice_norm(msg) == ("signed", 32, None), RV, "C02/verify-shape/message", vb.loc,
                   reason="returned message is %s, expected signed[32..]" % render(msg, maxdepth=3),
                   detail="message = signed[32..]")
-    # every slicing call is behind the passing side of the length guard
-    for bb, t in calls(vb, "Index::index"):
-        okk, p = g.must_pass(bb, cut_edges=pass_edges)
-        ctx.check(okk and bool(pass_edges), RV, "C02/verify-shape/slice-guarded@%s" % render(flow.strip(arg(an, bb, t, 1)), maxdepth=1)[:24],
-                  site(vb, bb), reason="slice of `signed` is reachable for inputs shorter than 32 bytes (panic)",
-                  detail="slicing dominated by len >= 32")
+    # every slicing call is unreachable for inputs shorter than it needs
+    ordinal = {}
+    for bb, what, need in slices:
+        ordinal[what] = ordinal.get(what, 0) + 1
+        okk = need is not None and not any(S.reachable(v, bb) for v in S.reach if v < need)
+        ctx.check(okk, RV, "C02/verify-shape/slice-guarded/%s#%d" % (what, ordinal[what]),
+                  site(vb, bb), reason="slice of `signed` needing %s bytes is reachable for shorter inputs (panic)" % need,
+                  detail="slicing (needs %s bytes) unreachable for shorter inputs" % need)
 
 
 def leaves_phi(e):
